@@ -170,12 +170,15 @@ def op_case(rng, op, rank):
     cxs = op in ("sum", "hadamard", "kronecker", "outer_product", "outer_sum", "index", "reduce_sum", "reduce_prod", "square", "conjugate", "mixing", "poly_product", "poly_diff") and rng.random() < 0.35
     st = rng.getstate()
 
+    counter = [0]
+
     def make():
         # same structural choices for every copy: replay the generator from the same state with
-        # fresh leaves (leaf objects are new on each call)
+        # fresh leaves (leaf objects are new on each call); index lists differ from copy to copy
         r2 = __import__("random").Random()
         r2.setstate(st)
-        g = pgen.ParamGen(r2, complex_=cxs, allow={op})
+        counter[0] += 1
+        g = pgen.ParamGen(r2, complex_=cxs, allow={op}, index_rng=__import__("random").Random(1000 * counter[0] + len(shape)))
         return g.build(shape, 1, False)
 
     return shape, make, cxs
@@ -198,10 +201,13 @@ def run_case(case) -> Result:
         cxs = rng.random() < 0.2
         st = rng.getstate()
 
+        counter = [0]
+
         def make():
             r2 = __import__("random").Random()
             r2.setstate(st)
-            return pgen.ParamGen(r2, complex_=cxs).build(shape, depth, False)
+            counter[0] += 1
+            return pgen.ParamGen(r2, complex_=cxs, index_rng=__import__("random").Random(77 * counter[0] + depth)).build(shape, depth, False)
 
         tag = f"compose depth={depth} shape={shape}"
     p = make()
